@@ -232,12 +232,16 @@ class Run:
                     c = self._cond(op["cond"], op["idx"])
                     m.add_conditional(c)
                     conds[int(op["idx"])] = (c, op["cond"])
-                    self.check_compilations(i, op["model"], False)
+                    if not op.get("quiet"):
+                        # (quiet steps are not observed: an observation between two updates is itself
+                        # part of the history and can refresh a stale memo)
+                        self.check_compilations(i, op["model"], False)
                 elif k == "remove":
                     m, pi, conds = self.models[op["model"]]
                     m.remove_conditional(int(op["idx"]))
                     conds.pop(int(op["idx"]), None)
-                    self.check_compilations(i, op["model"], False)
+                    if not op.get("quiet"):
+                        self.check_compilations(i, op["model"], False)
                 elif k == "compile_check":
                     self.check_compilations(i, op["model"], True)
                 elif k == "crev":
@@ -507,6 +511,9 @@ def generate(prop, verif_seed, idx, tier="quick", cls=None):
                 op["fixed_plus"] = {str(k): g.choice([0, 0, 1, 2]) for k in keys}
             ops.append(op)
             last_crev[m] = op
+    for op in ops:
+        if op["op"] in ("add", "remove") and g.random() < (0.7 if cls == "rebind" else 0.4):
+            op["quiet"] = True
     doc = {"property": prop, "seed": sseed, "idx": scen_idx, "class": cls, "knobs": {}, "sig": sig, "priors": priors, "ops": ops, "faults": []}
     if cls == "interrupt":
         del doc["faults"]
